@@ -182,7 +182,7 @@ class ExprGen:
     def read(self, target_index=None, earlier_only=False):
         vs = self.world["variables"]
         U = self.var["unit"]
-        spiral = self.discipline == "spiral"
+        spiral = self.discipline in ("spiral", "spiral_cyclic")
         if target_index is None:
             cands = list(range(self.i))
             if not cands:
@@ -307,7 +307,7 @@ def gen_world(
         "discipline": discipline,
     }
     n_vars = n_vars or rng.randint(4, 12)
-    if discipline == "spiral":
+    if discipline in ("spiral", "spiral_cyclic"):
         # quasi-circular chains need variables sharing a unit
         units = units or [("month", 75), ("year", 15), ("eternity", 10)]
     for i in range(n_vars):
@@ -332,7 +332,7 @@ def gen_world(
             body = g.expr(rng.randint(0, max_depth))
             var["formulas"][s] = body
     # back edges: strictly earlier periods only, so no true cycle can arise
-    if discipline == "spiral":
+    if discipline in ("spiral", "spiral_cyclic"):
         n_back = rng.randint(1, 3)
         formula_vars = [i for i, v in enumerate(world["variables"]) if v["formulas"]]
         for _ in range(n_back):
@@ -352,7 +352,7 @@ def gen_world(
             leaf = g.read(target_index=j, earlier_only=True)
             s = pick(rng, sorted(var["formulas"]))
             var["formulas"][s] = ["b", pick(rng, ["+", "max", "-"]), var["formulas"][s], leaf]
-    if discipline == "cyclic":
+    if discipline in ("cyclic", "spiral_cyclic"):
         formula_vars = [i for i, v in enumerate(world["variables"]) if v["formulas"]]
         if formula_vars:
             i = pick(rng, formula_vars)
